@@ -20,6 +20,8 @@ RULE = ("Generated op programs (model-based testing, the whole program shrinks a
         "dict nor the metadata object; the file holds exactly networks + metadata (+ unitary_dict); load/autoload give torch.equal "
         "parameters, same sizes, same dictionary; metadata round-trips. Non-trivial = a second save with the same non-empty "
         "metadata object for a state with a unitary dictionary, or an autoload of a model with nh != nv and non-zero biases.")
+RULE_EXT = ('Extended as built: further ops drift_restore (train, load back, compare), load_reinit_save, load into self, save locations as str / pathlib.Path / open file object, bare dictionary files, tensor metadata of several dtypes.')
+RULE = RULE + " " + RULE_EXT
 ASSUMPTIONS = ["metadata values are of kinds the installed torch's safe loader accepts (python scalars, str, None, list, tuple, dict, tensors)", "CPU only"]
 
 KEYS = ["a", "b", "lr", "epoch", "note", "k1"]
